@@ -108,7 +108,8 @@ type pkt struct {
 	p          Packet
 	sentHeight int64
 	sender     common.Address
-	tok        *token // token on the source chain (nil: no transfer)
+	payer      common.Address // who pays when it is not the sender (multicall)
+	tok        *token         // token on the source chain (nil: no transfer)
 	amount     *big.Int
 	receiver   common.Address
 	feeTok     *token
